@@ -15,7 +15,7 @@ from sim import core, e1, e1prop, e2, e2prop
 PROP = "C06"
 ENGINE = "E2"
 LEVEL = "exploration"
-LEVEL_TEXT = ("THIN as a simulation target. Baseline arm: seeded expression programs over MPS/MPO vs dense NumPy objects contracted by the model. Disturbed arm (simulation proper): "
+LEVEL_TEXT = ("THIN as a simulation target. Baseline arm: seeded expression programs over MPS/MPO (incl. periodic MPOs in measure_mpo and zipper) vs dense NumPy objects contracted by the model. Disturbed arm (simulation proper): "
               "multiply mode/tensordot policy/default fusion as knobs, cache faults at every lookup, the compression_ iterator stepped by the scheduler with observers "
               "looking at psi between sweeps and cancellation after any yield. Sampling, not proof.")
 LEVEL_NOTE = "Trusted: NumPy; sim/models/mps_dense.py (contracts site tensors incl. central block and factor; embeds each bond in the union of the sectors meeting there); yastn.legs_union/to_numpy."
